@@ -800,6 +800,32 @@ def _all_attrs(cls):
     return sorted(out)
 
 
+
+def _no_call_ids(t):
+    """A term with the sequence numbers of its calls removed: two evaluations of one side-effect-free expression."""
+    if isinstance(t, tuple):
+        if t and t[0] == 'call' and len(t) == 4 and isinstance(t[3], int):
+            return ('call', t[1], _no_call_ids(t[2]))
+        return tuple(_no_call_ids(x) for x in t)
+    return t
+
+
+def _same_size(p, read_term, bound, at=10 ** 9):
+    """Is `bound` the size that the read producing read_term was asked for?  A read that returns fewer bytes than it
+    was asked for has reached the end of its reader; fewer bytes than some other quantity says nothing."""
+    rt = strip_epoch(read_term)
+    for e in p.events:
+        if e.kind == 'call' and e.data.get('name') == 'read' and strip_epoch(e.data['value'].term) == rt:
+            args = e.data.get('args') or []
+            if not args:
+                return False
+            # nothing the size may depend on is stored between the read and the comparison
+            if any(x.kind == 'store' and x.data['target'][0] == 'attr' and e.seq < x.seq < at and
+                   not x.data.get('aug') for x in p.events):
+                return False
+            return _no_call_ids(strip_epoch(args[0].term)) == _no_call_ids(strip_epoch(bound))
+    return False
+
 def _flat(t):
     out = []
     if isinstance(t, tuple):
@@ -926,8 +952,8 @@ def rule_g(ctx):
             if k[0] == 'lt' and len(k) >= 3 and c.data['value'] is True:
                 r = direct_len(k[1])
                 if r is not None and reader_field(r) == X and direct_len(k[2]) is None and \
-                        strip_epoch(k[2]) != ('const', 0):
-                    return True  # short read: fewer bytes than asked for
+                        strip_epoch(k[2]) != ('const', 0) and _same_size(p, r, k[2], c.seq):
+                    return True  # short read: fewer bytes than that very read asked for
         return False
 
     problems = {}
